@@ -5,6 +5,7 @@ package verifbench
 // handler; respond answers in whatever protocol the transcoder chose to speak.
 
 import (
+	"encoding/binary"
 	"encoding/base64"
 	"encoding/json"
 	"fmt"
@@ -792,8 +793,25 @@ func writeResponse(sc *Scenario, resp *builtResponse, w http.ResponseWriter) {
 	i := 0
 	writes := 0
 	requestRead := false
+	var frameEnds []int // with WritePerFrame: absolute offsets at which a frame of the (enveloped) body ends
+	if b.WritePerFrame {
+		for _, o := range frameOffsets(resp.Body) {
+			frameEnds = append(frameEnds, o+5+int(binary.BigEndian.Uint32(resp.Body[o+1:o+5])))
+		}
+	}
 	for len(body) > 0 {
 		n := len(body)
+		if len(frameEnds) > 0 {
+			pos := len(resp.Body) - len(body)
+			for _, e := range frameEnds {
+				if e > pos {
+					if e-pos < n {
+						n = e - pos
+					}
+					break
+				}
+			}
+		}
 		if b.WriteChunk > 0 && n > b.WriteChunk {
 			n = b.WriteChunk
 		}
